@@ -25,7 +25,46 @@ def seeds():
         n += 1; caught += bool(res["caught_by"])
         out.append("| %s | %s | %s | %s | %s | %s |" % (os.path.basename(d), res["property"], needs, cb, missed, later))
     return "\n".join(out), n, caught
+def status():
+    import importlib, sys
+    sys.path.insert(0, ROOT)
+    out = ["| id | group | theorems (obligations discharged) | refined kernels | frontier / partial | open finding kinds | quick cases |", "|---|---|---|---|---|---|---|"]
+    kf = [json.loads(l) for l in open(ROOT + "/known_findings.jsonl") if l.startswith("{")]
+    for i in range(1, 21):
+        pid = "C%02d" % i
+        f = ROOT + "/vlib/props/%s.py" % pid.lower()
+        if not os.path.exists(f):
+            out.append("| %s | — | — | — | not built | | |" % pid); continue
+        P = importlib.import_module("vlib.props." + pid.lower())
+        ev = {}
+        ef = ROOT + "/evidence/%s.json" % pid
+        if os.path.exists(ef):
+            ev = json.load(open(ef)).get("coverage", {})
+        sites = sorted({e["site"][:60] for e in kf if e["property"] == pid})
+        out.append("| %s | %s | %s/%s | %d listed | %s | %d | %s |" % (
+            pid, P.GROUP, ev.get("discharged", "?"), ev.get("obligations", "?"), len(getattr(P, "REFINED", [])),
+            "; ".join(x[:90] for x in getattr(P, "FRONTIER", [])[:3]).replace("|", "/") or "—", len(sites), ev.get("evaluations", "?")))
+    return "\n".join(out)
+
+def write_design():
+    f, nf = fixes(); sd, n, c = seeds()
+    block = ("<!-- AUTOGEN-BEGIN (python3 vlib/design_tables.py --write) -->\n\n"
+             "### Appendix A2 — status per property (from vlib/props and the last evidence files)\n\n%s\n\n"
+             "### Appendix B — %d `fix:` commits in /repo (each one small repair; the pinned suite passes after each)\n\n%s\n\n"
+             "### Appendix C — seeded-change trials: %d kept (confirmed independently), %d caught by the checks\n\n%s\n\n"
+             "<!-- AUTOGEN-END -->\n") % (status(), nf, f, n, c, sd)
+    d = open(ROOT + "/DESIGN.md").read()
+    if "<!-- AUTOGEN-BEGIN" in d:
+        d = d[:d.index("<!-- AUTOGEN-BEGIN")] + block + d[d.index("<!-- AUTOGEN-END -->") + len("<!-- AUTOGEN-END -->\n"):]
+    else:
+        d = d.rstrip("\n") + "\n\n---------------------------------------------------------------------------------------------------\n\n## Appendices generated from the tree\n\n" + block
+    open(ROOT + "/DESIGN.md", "w").write(d)
+
 if __name__ == "__main__":
+    import sys as _s
+    if "--write" in _s.argv:
+        write_design(); raise SystemExit(0)
+    print("### Appendix A2 — status per property (from vlib/props and the last evidence files)\n\n%s\n" % status())
     f, nf = fixes(); s, n, c = seeds()
     print("### Appendix B — %d `fix:` commits in /repo\n\n%s\n" % (nf, f))
     print("### Appendix C — seeded-change trials: %d kept, %d caught\n\n%s\n" % (n, c, s))
